@@ -209,9 +209,9 @@ def run(eng, rep):
                 "the frame interpreter (T5) checks, per configuration, that every projector handed to dykstra acts in the frame of the projected point and that "
                 "callbacks are evaluated in user coordinates and their results combined only with user-frame values.")
     rep.not_decided += ["convergence within 1e-3*(1+F*) and the success flag (numerical)", "quality of the smoothed-FISTA iteration"]
-    rule_pass_through(eng, rep)
-    rule_no_star_into_fixed_arity(eng, rep)
-    rule_none_defaults(eng, rep)
-    rule_subproblem_over_the_box(eng, rep)
+    rep.guarded(rule_pass_through, eng, rep)
+    rep.guarded(rule_no_star_into_fixed_arity, eng, rep)
+    rep.guarded(rule_none_defaults, eng, rep)
+    rep.guarded(rule_subproblem_over_the_box, eng, rep)
     n = rule_frames(eng, rep, kinds=("dykstra-frames", "callback-frame", "arith"), rule_prefix="C06-4", exact_rule=None)
     rep.require_count("C06-4.frame-agreement", "dykstra/callback/arithmetic sites analysed over all configurations", n, 60)
